@@ -206,9 +206,44 @@ def run(ctx, chk, tier="quick"):
     if fresh and fresh[0].lineno < fill.lineno:
         reset_ok = True
         reset = reset or fresh
-    chk.ob("C05.O1", reset_ok, where_of(f, reset[0] if reset else fill), "row template reset per level: %s" % bool(reset_ok),
-           "coefficients of the previous level are cleared", key="find_offsets|template-reset", scope=f,
-           why="stale coefficients couple intervals that do not cross this level")
+    # other spellings of the reset: T.fill(0), T[...] = 0, T *= 0
+    other = []
+    for n in outer.body:
+        if n is fill or n.lineno >= fill.lineno:
+            continue
+        if isinstance(n, ast.Expr) and isinstance(n.value, ast.Call) and isinstance(n.value.func, ast.Attribute) and isinstance(n.value.func.value, ast.Name) \
+                and n.value.func.value.id == template:
+            c = n.value
+            if c.func.attr == "fill" and len(c.args) == 1 and not c.keywords and isinstance(c.args[0], ast.Constant):
+                other.append((n, c.args[0].value == 0))
+            else:
+                other.append((n, None))
+        elif isinstance(n, ast.AugAssign) and isinstance(n.target, ast.Name) and n.target.id == template:
+            other.append((n, True if isinstance(n.op, ast.Mult) and isinstance(n.value, ast.Constant) and n.value.value == 0 else None))
+        elif isinstance(n, ast.Assign) and isinstance(n.targets[0], ast.Subscript) and isinstance(n.targets[0].value, ast.Name) and n.targets[0].value.id == template \
+                and isinstance(n.targets[0].slice, ast.Constant) and n.targets[0].slice.value is Ellipsis:
+            other.append((n, (n.value.value == 0) if isinstance(n.value, ast.Constant) else None))
+            if n in fills:
+                pass
+        elif n not in tstores and not isinstance(n, (ast.For, ast.While, ast.If, ast.With, ast.Try)) \
+                and any(isinstance(x, ast.Name) and x.id == template for x in ast.walk(n)) and not fresh:
+            # the template is handed to / rebound by something this rule does not read
+            if isinstance(n, ast.Assign) and any(isinstance(t, ast.Name) and t.id == template for t in n.targets) or \
+                    any(isinstance(x, ast.Call) and any(isinstance(y, ast.Name) and y.id == template for a in x.args for y in ast.walk(a)) for x in ast.walk(n)):
+                other.append((n, None))
+    if not reset_ok and other:
+        if any(v is True for _, v in other):
+            reset_ok = True
+            reset = [n for n, v in other if v is True]
+        elif all(v is None for _, v in other):
+            chk.indeterminate("C05.O1", where_of(f, other[0][0]), "how the row template is cleared per level (%s) is not read" % ast.unparse(other[0][0])[:60])
+            reset_ok = None
+        else:
+            reset = [n for n, v in other if v is False]
+    if reset_ok is not None:
+        chk.ob("C05.O1", reset_ok, where_of(f, reset[0] if reset else fill), "row template reset per level: %s" % bool(reset_ok),
+               "coefficients of the previous level are cleared", key="find_offsets|template-reset", scope=f,
+               why="stale coefficients couple intervals that do not cross this level")
     # n := number of members (all of them)
     try:
         oflow = flow
